@@ -149,7 +149,7 @@ func (o *Obs) ResultTerm(l4 L4) string {
 			if v4 := ip.To4(); v4 != nil && len(ip) == 4 {
 				ip = v4
 			}
-			dst = vgen.Opt(vgen.Pair(vgen.Bytes(ip), vgen.N(uint64(o.Res.Dst.Port))), true)
+			dst = vgen.Opt("(pair "+bytesTerm(ip)+" "+vgen.N(uint64(o.Res.Dst.Port))+")", true)
 		}
 		return vgen.App("Router.Forward", vgen.N(uint64(o.Res.Egress)), out, dst)
 	case router.VerifSlowPath:
@@ -199,8 +199,8 @@ func MacTable(c *Config, in *Rec) string {
 				}
 				seen[key] = true
 				m := MAC(c.Key, sid, inf.Timestamp, h.ExpTime, h.ConsIngress, h.ConsEgress)
-				es = append(es, fmt.Sprintf("(%d, %d, %d, %d, %d, %s)", sid, inf.Timestamp, h.ExpTime,
-					h.ConsIngress, h.ConsEgress, vgen.Bytes(m[:])))
+				es = append(es, fmt.Sprintf("(Router.macc %d %d %d %d %d %d)", sid, inf.Timestamp, h.ExpTime,
+					h.ConsIngress, h.ConsEgress, mac48(m)))
 			}
 		}
 	}
